@@ -5,7 +5,9 @@ operation (call, attribute load/store, subscript load/store/delete, arithmetic, 
 truth test, iteration, context manager entry/exit, ** unpacking) appends its description to
 the log and returns a new V whose description says how it was computed, so that equal logs +
 equal result descriptions = same side effects in the same order and same result.  Selected
-events raise (chosen by a hash of the description), truth values and iteration lengths are
+events raise (chosen by a hash of the description); the attribute load `v.Error` is an event whose
+result is a real exception class (Boom, TypeError, KeyError, ...; chosen by the world) for `raise`
+statements and `except` clauses; truth values and iteration lengths are
 hashes of the description too: the original and the transformed function see the same world.
 """
 import zlib
@@ -17,6 +19,9 @@ class Abort(BaseException):
 
 class Boom(Exception):
     pass
+
+
+EXC_CLASSES = (Boom, Boom, TypeError, KeyError, LookupError, Exception)
 
 
 def D(x):
@@ -103,6 +108,13 @@ class V(object):
                 w.ev('keys(%s)' % d)
                 return ['k%d' % (w.h(d) % 7)]
             return keys
+        if name == 'Error':
+            # the load is an event like any other; its result is a real exception class (chosen by the world), so
+            # that `raise v.Error(x)` raises it and `except v.Error:` matches / does not match it
+            w = _w(self)
+            d = '%s.Error' % D(self)
+            w.ev(d)
+            return EXC_CLASSES[w.h('x' + d) % len(EXC_CLASSES)]
         return _w(self).ev('%s.%s' % (D(self), name))
 
     def __setattr__(self, name, v):
